@@ -24,8 +24,12 @@ def gen_program(rnd):
         lines.append("x%d = %s(I[%d])" % (len(inputs) - 1, ctor, len(inputs) - 1))
         return "x%d" % (len(inputs) - 1)
 
+    fx = rnd.random() < 0.2      # fixed-point elements next to integers and constants
+
     def elem():
         v = rnd.randint(-9, 9)
+        if fx and rnd.random() < 0.5:
+            return inp(rnd.randint(-40, 40) / 4.0, "PrivValFxp")
         return inp(v) if rnd.random() < 0.6 else str(v)
 
     if two_d:
@@ -34,7 +38,7 @@ def gen_program(rnd):
         lines.append("A = Array([%s])" % ", ".join(rows))
         shape = (n, m)
     else:
-        n = rnd.randint(1, 6)
+        n = rnd.choice([1, 2, 3, 4, 5, 6] * 5 + [17, 40])
         lines.append("A = Array([%s])" % ", ".join(elem() for _ in range(n)))
         shape = (n,)
     kinds = set()
@@ -168,6 +172,8 @@ def num(x):
         v = getattr(x.lc, "value", None)
     if v is None and hasattr(x, "v"):
         v = x.v
+    if v is None and hasattr(x, "r"):
+        v = x.r
     return v
 
 
